@@ -121,6 +121,15 @@ class SetOf(T):
         return f"SetOf({self.elem!r})"
 
 
+class FiniteSet(T):
+    """A set of lo..hi pairwise distinct fresh elements (explicit representation; forks over the sizes)."""
+    def __init__(self, elem: T, lo: int, hi: int) -> None:
+        self.elem, self.lo, self.hi = elem, lo, hi
+
+    def __repr__(self) -> str:
+        return f"FiniteSet({self.elem!r},{self.lo}..{self.hi})"
+
+
 class DictOf(T):
     """A dict: key sequence (duplicate free, insertion order) + value map."""
     def __init__(self, key: T, value: T, distinct: bool = False, total: bool = False) -> None:
@@ -146,11 +155,22 @@ class Ref(T):
         return f"Ref({self.cls})"
 
 
+class Uninterpreted:
+    """An abstract (uninterpreted) spec function: callable only symbolically. Used for the meaning of
+    abstract operands (structural induction: operands are assumed to meet the abstract contract)."""
+    def __init__(self, name: str, args: list, returns: T) -> None:
+        self.name, self.args, self.returns = name, args, returns
+
+    def __call__(self, *args: Any) -> Any:
+        raise NotImplementedError(f"{self.name} is abstract: no native value")
+
+
 class External:
     """Assumed contract of a callee outside the verified world: returns a fresh value of `returns`,
     may raise any of `raises` (nondeterministically), has no file-system effect unless `effect`."""
     def __init__(self, returns: T = None, raises: Optional[list[str]] = None, effect: Optional[str] = None,
-                 pure: bool = False) -> None:
+                 pure: bool = False, ensures: Optional[Callable] = None) -> None:
+        self.ensures = ensures    # spec function (self/args..., result) assumed of the fresh result
         self.returns = returns
         self.raises = raises or []
         self.effect = effect
@@ -261,6 +281,11 @@ def exists(domain: Any, pred: Callable) -> bool:
 
 def count(domain: Any, pred: Callable) -> int:
     return sum(1 for x in domain if pred(x))
+
+
+def forall_str(pred: Callable) -> bool:
+    """for all strings (symbolic only)"""
+    raise NotImplementedError("forall_str has no native evaluation")
 
 
 def isnone(x: Any) -> bool:
